@@ -18,4 +18,5 @@ INVARIANT ShapeOrError
 INVARIANT ErrorsAreDeclared
 INVARIANT LowPass
 INVARIANT ClampEq
+INVARIANT HaloIsPadding
 INVARIANT Emit
